@@ -318,3 +318,45 @@ func (m *Message) SortedFields() []*Field {
 	sort.SliceStable(fs, func(i, j int) bool { return fs[i].Num < fs[j].Num })
 	return fs
 }
+
+// Lacking returns a copy of the schema in which every message with at least two fields lacks one of them
+// ("first", "middle" or "last" of its declaration order): the descriptor a reader with an OLDER version of the
+// file holds. Messages encoded with s carry those fields as unknown fields for the copy.
+func (s *Schema) Lacking(which string) *Schema {
+	out := &Schema{ID: s.ID + "~lacks-" + which}
+	m2 := map[*Message]*Message{}
+	for _, m := range s.Msgs {
+		n := &Message{Name: m.Name}
+		m2[m] = n
+		out.Msgs = append(out.Msgs, n)
+	}
+	for _, m := range s.Msgs {
+		n := m2[m]
+		if m.Parent != nil {
+			n.Parent = m2[m.Parent]
+		}
+		drop := -1
+		if len(m.Fields) >= 2 {
+			switch which {
+			case "first":
+				drop = 0
+			case "middle":
+				drop = len(m.Fields) / 2
+			default:
+				drop = len(m.Fields) - 1
+			}
+		}
+		for i, f := range m.Fields {
+			if i == drop {
+				continue
+			}
+			c := *f
+			if c.Msg != nil {
+				c.Msg = m2[c.Msg]
+			}
+			n.Fields = append(n.Fields, &c)
+		}
+	}
+	out.Root = m2[s.Root]
+	return out
+}
